@@ -481,3 +481,5 @@ MANIFEST = {
     "note": "Trusted: Lean kernel, standard axioms, the harness; H_layout is a hypothesis the proof forces and is monitored on "
             "the implementation in every case (it is what the first-contribution copy must guarantee).",
 }
+
+MANIFEST_ADDENDUM = 'Oracle additions: 210 histories in which the view chain is taken after backward() (or both before and after) from a C-/Fortran-ordered owner or a former view, with op-made, default and scalar seeds, followed by `.shape =` inside no_autodiff; view elements are identified by memory address (any layout of base and view).'
